@@ -1,5 +1,7 @@
 """C01 -- every submitted future resolves and no API call hangs."""
 from ..rules import liveness as L
+from ..rules import contain as C
+from ..rules import broken as B
 
 EXPLANATION = (
     "Static analysis (points-to + CFG + lock context). Decides necessary conditions of deadlock freedom, each "
@@ -13,14 +15,18 @@ EXPLANATION = (
 
 
 def run(e, R, tier):
-    L.r_wake(e, R)
-    L.r_wake_lock(e, R)
-    L.r_own_resolve(e, R)
-    L.r_drop_resolves(e, R)
-    L.r_mgr_exit(e, R)
-    L.r_nulled(e, R)
-    L.r_mgr_self(e, R)
-    L.r_poll(e, R)
-    L.r_lock_order(e, R)
-    L.r_block_mgr(e, R)
+    R.run_rules(e, [
+        L.r_wake,
+        L.r_wake_lock,
+        L.r_own_resolve,
+        L.r_drop_resolves,
+        L.r_mgr_exit,
+        L.r_nulled,
+        L.r_mgr_self,
+        L.r_poll,
+        L.r_lock_order,
+        L.r_block_mgr,
+        C.r_feeder,
+        B.r_waitset,
+    ])
     R.trust("stdlib facts: mp.Queue.put starts the feeder thread; Thread.start runs run(); Executor.map calls submit")
